@@ -654,7 +654,13 @@ fn short(op: &Op) -> String {
     s.split([' ', '{']).next().unwrap_or("?").to_string()
 }
 
-pub fn run(seed: u64, shard: u64, nshards: u64, cases: u64, max_faults_per_case: usize, only: Option<(u64, Fault)>, rep: &mut Report) {
+/// Verdicts of the outage engine that say "the tower is wedged" (as opposed to "the outage was handled wrongly"):
+/// they are reported under C11 as well when the engine runs on its behalf.
+fn wedge_signature(sig: &str) -> bool {
+    ["C12:poll-does-not-return", "C12:not-recovered:", "C12:api-hangs-during-outage", "C12:blocked-without-outage", "C12:panic"].iter().any(|p| sig.starts_with(p)) && sig != "C12:not-recovered:still-unavailable"
+}
+
+pub fn run(seed: u64, shard: u64, nshards: u64, cases: u64, max_faults_per_case: usize, only: Option<(u64, Fault)>, prop: &str, rep: &mut Report) {
     panics::install();
     let dir = PathBuf::from(format!("/dev/shm/tv-e1o-{}", std::process::id()));
     std::fs::create_dir_all(&dir).unwrap();
@@ -672,7 +678,7 @@ pub fn run(seed: u64, shard: u64, nshards: u64, cases: u64, max_faults_per_case:
         set_observer(Some(obs.clone()));
         run_case(&mut case);
         set_observer(None);
-        let r = rep.p("C12");
+        let r = rep.p(prop);
         if !case.viols.is_empty() || case.tolerated_divergence || case.snaps.len() != case.ops.len() {
             r.count("histories_skipped_as_reference", 1);
             continue;
@@ -739,11 +745,18 @@ pub fn run(seed: u64, shard: u64, nshards: u64, cases: u64, max_faults_per_case:
         for f in faults {
             let world = world0.fork();
             let o = run_faulted(&world, &cfg, &case.ops, &case.snaps, &f, case.salt);
-            let r = rep.p("C12");
+            let r = rep.p(prop);
             r.eval();
             if let Some(why) = &o.inconclusive {
                 r.inconclusive += 1;
                 r.note(format!("history {id} fault {f:?}: {why}"));
+                if why.contains("watchdog") {
+                    r.count("watchdog_expiries", 1);
+                    if r.counters["watchdog_expiries"] >= 10 && only.is_none() {
+                        r.note(format!("history {id}: the remaining faults were skipped after 10 watchdog expiries (20 s each) in this shard"));
+                        break;
+                    }
+                }
                 continue;
             }
             if o.hit {
@@ -755,7 +768,18 @@ pub fn run(seed: u64, shard: u64, nshards: u64, cases: u64, max_faults_per_case:
             } else {
                 r.count("faults_not_reached", 1);
             }
+            // a tower wedged by a change keeps every remaining fault waiting for watchdogs: the run has failed already
+            let worst = r.counters.iter().filter(|(k, _)| k.starts_with("violations[")).map(|(_, v)| *v).max().unwrap_or(0);
+            if worst >= 12 && only.is_none() {
+                r.note(format!("history {id}: the remaining faults were skipped after {worst} violations with one signature"));
+                break;
+            }
             if let Some((sig, detail)) = o.violation {
+                if prop != "C12" && !wedge_signature(&sig) {
+                    // handling the outage wrongly without wedging the tower is C12's business
+                    continue;
+                }
+                let sig = if prop != "C12" { sig.replacen("C12:", &format!("{prop}:outage:"), 1) } else { sig };
                 let replay = json!({"engine":"e1o","seed":seed,"case":id,"fault": match &f {
                     Fault::Outage{rpc,polls_down,with_following_chain_ops} => json!({"outage":[rpc,polls_down,with_following_chain_ops]}),
                     Fault::SrcFailure{op,call,len} => json!({"src_failure":[op,call,len]}),
